@@ -5,6 +5,8 @@ ROOT = os.path.dirname(os.path.dirname(os.path.abspath(__file__)))
 ids = [json.loads(l)["id"] for l in open(os.path.join(ROOT, "properties.jsonl"))]
 m = json.load(open(os.path.join(ROOT, "MANIFEST.json")))
 checks, na = [], []
+# only properties listed in claimed.txt (maintained by hand, after their quick check passes) are claimed
+allowed = set(open(os.path.join(ROOT, "claimed.txt")).read().split())
 for pid in ids:
     p = os.path.join(ROOT, "props", pid + ".py")
     cfg = {}
@@ -13,7 +15,7 @@ for pid in ids:
         mod = importlib.util.module_from_spec(spec)
         spec.loader.exec_module(mod)
         cfg = {k: getattr(mod, k) for k in dir(mod) if not k.startswith("_")}
-    if cfg.get("CLAIM"):
+    if cfg.get("CLAIM") and pid in allowed:
         checks.append({
             "property_id": pid,
             "quick_cmd": f"./check {pid} --tier quick",
